@@ -224,4 +224,32 @@ theorem log_paths (projDir name : String) :
 
 example : logPath "/p" "A.b" ".stdout" = "/p/.gwf/logs/A.b.stdout" := by decide
 
+/-! ### SGE: total memory becomes memory per core -/
+
+/-- the decimal value of a digit string, as `int()` reads it -/
+def digitsVal (ds : List Char) : Nat := ds.foldl (fun n c => n * 10 + (c.toNat - 48)) 0
+
+theorem filter_digits_append (ds u : List Char) (hd : ∀ c ∈ ds, c.isDigit = true) (hu : ∀ c ∈ u, c.isDigit = false) :
+    (ds ++ u).filter Char.isDigit = ds ∧ (ds ++ u).filter (fun c => !c.isDigit) = u := by
+  constructor
+  · rw [List.filter_append]
+    have h1 : ds.filter Char.isDigit = ds := List.filter_eq_self.2 hd
+    have h2 : u.filter Char.isDigit = [] := List.filter_eq_nil_iff.2 (fun c hc => by simp [hu c hc])
+    rw [h1, h2]; simp
+  · rw [List.filter_append]
+    have h1 : ds.filter (fun c => !c.isDigit) = [] := List.filter_eq_nil_iff.2 (fun c hc => by simp [hd c hc])
+    have h2 : u.filter (fun c => !c.isDigit) = u := List.filter_eq_self.2 (fun c hc => by simp [hu c hc])
+    rw [h1, h2]; simp
+
+/-- **SGE gets memory PER CORE**: a total of `<number><unit>` on `c` cores is written as
+    `⌊number / c⌋<unit>` (the unit — any digit-free suffix — is kept as it is) -/
+theorem sge_memory_per_core (ds u : List Char) (c : Nat)
+    (hd : ∀ x ∈ ds, x.isDigit = true) (hu : ∀ x ∈ u, x.isDigit = false) :
+    sgeMemory (.str (String.ofList (ds ++ u))) (.int c) = toString (digitsVal ds / c) ++ String.ofList u := by
+  obtain ⟨h1, h2⟩ := filter_digits_append ds u hd hu
+  simp only [sgeMemory, pyStr, digitsOf, nonDigits, String.toList_ofList, h1, h2, Int.toNat_natCast, digitsVal]
+
+example : sgeMemory (.str "16g") (.int 4) = "4g" := by decide
+example : sgeMemory (.str "1g") (.int 4) = "0g" := by decide     -- floor division: the N4 note of the design
+
 end Gwf.C10
